@@ -57,6 +57,13 @@ fn main() {
     let part: usize = arg(&args, "--part").and_then(|s| s.parse().ok()).unwrap_or(0);
     let budget = arg(&args, "--budget").and_then(|s| s.parse().ok()).unwrap_or(if tier == Tier::Quick { 120u64 } else { 1200 });
     let verbose = args.iter().any(|a| a == "--verbose");
+    // the interpreter lane passes its parameters on the command line
+    if args.iter().any(|a| a == "--checkpoint") {
+        std::env::set_var("LVERIF_CHECKPOINT", "1");
+    }
+    if let Some(dir) = arg(&args, "--scratch") {
+        std::env::set_var("LVERIF_SCRATCH", dir);
+    }
     guard::install_panic_hook(verbose);
     let mut ctx = Ctx {
         prop: prop.clone(),
